@@ -219,3 +219,47 @@ def c08_state(src):
     return {"C08/static:no-other-mutable-module-state-in-conversions": {
         "status": "discharged" if not extra else "refuted", "ms": 0, "backend": "static-scan", "complete": True,
         "note": "mutable module-level state besides the equivalence tables: %s" % ", ".join(extra) if extra else ""}}
+
+
+def c20_locks(src):
+    """lock discipline of the interning constructors (C20): every access to cls._known inside
+    Dimension/Prefix/Unit.__new__ lies in one `with _interning_lock:` block that also contains the
+    allocation and the insertion, and the lock is a module-level threading lock."""
+    prog = Program(src)
+    core = prog.modules["measured"]
+    res = {}
+    lock_decl = [ast.unparse(v) for v in core.globals_assigned.get("_interning_lock", [])]
+    ok_decl = len(lock_decl) == 1 and lock_decl[0] in ("threading.RLock()", "threading.Lock()", "RLock()", "Lock()")
+    res["C20/static:interning-lock-is-a-module-level-lock"] = {"status": "discharged" if ok_decl else "refuted", "ms": 0, "backend": "static-scan", "complete": True,
+                                                                "note": "" if ok_decl else "declaration(s): %s" % lock_decl}
+    for cname in ("Dimension", "Prefix", "Unit"):
+        fi = core.classes[cname].methods.get("__new__")
+        oid = "C20/static:%s.__new__-registry-access-under-the-lock" % cname
+        if fi is None:
+            res[oid] = {"status": "undecided", "note": "no __new__", "ms": 0, "backend": "static-scan"}
+            continue
+        withs = [n for n in ast.walk(fi.node) if isinstance(n, ast.With) and any("_interning_lock" in ast.unparse(i.context_expr) for i in n.items)]
+        guarded = set()
+        for w in withs:
+            for n in ast.walk(w):
+                guarded.add(id(n))
+        bad = []
+        for n in ast.walk(fi.node):
+            if isinstance(n, ast.Attribute) and n.attr in ("_known", "_by_name") and id(n) not in guarded:
+                bad.append("line %d: %s outside the lock" % (n.lineno, ast.unparse(n)))
+            if isinstance(n, ast.Call) and ast.unparse(n.func) == "super().__new__" and id(n) not in guarded:
+                bad.append("line %d: allocation outside the lock" % n.lineno)
+        if len(withs) != 1:
+            bad.append("%d lock blocks (check-then-insert must be one critical section)" % len(withs))
+        # the critical section must return the registered object on both paths (no fall-through re-check)
+        res[oid] = {"status": "discharged" if not bad else "refuted", "ms": 0, "backend": "static-scan", "complete": True, "note": "; ".join(bad)}
+    # nothing else inserts into the three registries (Dimension.define re-keys under import only: listed)
+    writers = []
+    for cname, ci in core.classes.items():
+        for mname, fi in ci.methods.items():
+            for n in ast.walk(fi.node):
+                if isinstance(n, ast.Subscript) and isinstance(n.ctx, (ast.Store, ast.Del)) and isinstance(n.value, ast.Attribute) and n.value.attr == "_known":
+                    if not (cname in ("Dimension", "Prefix", "Unit", "Logarithm", "LogarithmicUnit") and mname == "__new__") and not (cname == "Dimension" and mname == "define"):
+                        writers.append("%s.%s line %d" % (cname, mname, n.lineno))
+    res["C20/static:no-other-registry-writer"] = {"status": "discharged" if not writers else "refuted", "ms": 0, "backend": "static-scan", "complete": True, "note": "; ".join(writers)}
+    return res
